@@ -18,6 +18,7 @@ import (
 	"time"
 
 	netty "github.com/go-netty/go-netty"
+	"github.com/go-netty/go-netty/transport"
 	"github.com/go-netty/go-netty/utils/pool/pbytes"
 	"nvharness/mock"
 	"nvharness/rt"
@@ -120,6 +121,8 @@ type Scenario struct {
 	Threads []Thread
 	NCtx    int
 	FailAt  int // 1-based index of the transport write/writev call that fails (0 = none)
+	Buffered int // > 0: the library's write-buffered transport of this size over a connection under the controller
+	conn    *ctlConn
 }
 
 type ctlExec struct {
@@ -147,7 +150,7 @@ func runScenario(sc *Scenario, strat rt.Strategy) *rt.Controller {
 			return nil
 		}
 	}
-	tr.OnCall = func(call mock.Call) {
+	onCall := func(call mock.Call) {
 		e := ""
 		if call.Err != "" {
 			e = "!" + call.Err
@@ -167,14 +170,20 @@ func runScenario(sc *Scenario, strat rt.Strategy) *rt.Controller {
 			c.Emit("tr:%s%s", call.Op, e)
 		}
 	}
+	tr.OnCall = onCall
+	var trx transport.Transport = tr
+	if sc.Buffered > 0 {
+		sc.conn = &ctlConn{c: c}
+		trx = &loggedTransport{Transport: transport.NewTransport(sc.conn, 0, sc.Buffered), onCall: onCall}
+	}
 	pl := netty.NewPipeline()
 	var ch netty.Channel
 	parent, parentCancel := context.WithCancel(context.Background())
 	defer parentCancel()
 	if sc.Sync {
-		ch = netty.NewChannel()(1, parent, pl, tr, ctlExec{c})
+		ch = netty.NewChannel()(1, parent, pl, trx, ctlExec{c})
 	} else {
-		ch = netty.NewAsyncWriteChannel(sc.Qcap, sc.Until)(1, parent, pl, tr, ctlExec{c})
+		ch = netty.NewAsyncWriteChannel(sc.Qcap, sc.Until)(1, parent, pl, trx, ctlExec{c})
 	}
 	netty.NvAttach(pl, ch)
 	ctxs := make([]context.Context, sc.NCtx)
@@ -292,7 +301,11 @@ func runScenario(sc *Scenario, strat rt.Strategy) *rt.Controller {
 }
 
 func printRun(prop string, sc *Scenario, c *rt.Controller) {
-	emit("%s cfg %d %d %d", prop, b2i(sc.Sync), sc.Qcap, b2i(sc.Until))
+	if sc.Buffered > 0 {
+		emit("%s cfg %d %d %d buf%d", prop, b2i(sc.Sync), sc.Qcap, b2i(sc.Until), sc.Buffered)
+	} else {
+		emit("%s cfg %d %d %d", prop, b2i(sc.Sync), sc.Qcap, b2i(sc.Until))
+	}
 	if sc.FailAt > 0 {
 		emit("%s failwrite %d", prop, sc.FailAt)
 	}
@@ -313,6 +326,9 @@ func printRun(prop string, sc *Scenario, c *rt.Controller) {
 	p := strings.Join(c.Parked, ",")
 	if p == "" {
 		p = "-"
+	}
+	if sc.conn != nil {
+		emit("%s conn %s", prop, hexOrDash(sc.conn.bytes()))
 	}
 	emit("%s end %s %s", prop, c.End, p)
 }
